@@ -8,8 +8,9 @@ Deductive part (index-level domain, symbolic H, W, kH <= H, kW <= W):
                   theorem (axiom A3); channels independent;
   fft.normal_eq   every channel of qslst_restore_fft is real(ifft2(X)) with (|h^|^2 + lam) X = conj(h^) b^
                   pointwise in the frequency domain (complex identity by z3), h^ = fft2(pad), b^ = fft2(B_c);
-  matrix path     (bounded only: loops over symbolic image sizes appending to Python lists) agreement with the FFT path and the
-                  normal equations, incl. badly conditioned invertible blurs at lam = 0;
+  matrix path     qslst_restore_matrix in the provenance domain, all image sizes: every channel is pinv(A^T A + lam I) applied to A^T b (row-major
+                  flattening in and out, one T for the four channels); agreement with the FFT path and the accuracy of pinv on badly
+                  conditioned invertible blurs at lam = 0 are bounded;
   builders        one generic iteration of each BCCB builder places psf weights at the convolution offsets
                   (per-iteration contracts); guards (boundary, shapes).
 Bounded stand-in: impulse response / mass / path agreement on H,W <= 6, kernels <= image, odd/even, asymmetric."""
